@@ -91,6 +91,10 @@ def gen_case(rng, tier, idx):
                               "enabled": True, "seeded": False, "multi": False})
             g["junk"] = g["junk"] + [0] * (len(nodes) - len(g["junk"]))
     case = {"graph": g, "host": host, "store_skips": rng.random() < 0.4, "ext_seed": rng.getrandbits(32)}
+    if rng.random() < 0.2:
+        # a graph that is not closed under dependencies (a caller-filtered dictionary): what is left out is never evaluated,
+        # whichever driver runs the rest
+        case["subdict_drop"] = sorted(rng.sample(range(len(g["nodes"])), rng.randint(1, max(1, len(g["nodes"]) // 4))))
     if rng.random() < 0.25:
         # the broker of a loaded archive: SerializedArchiveContext plus pre-loaded values (no pre-loaded component is a
         # direct dependency of another one: that makes dr.run raise KeyError on the unchanged tree, outside the statement)
@@ -158,13 +162,24 @@ def mk_broker(spec, b=None):
     return br
 
 
+def the_graph(spec, b):
+    from vpmon import gen_graph as G
+    graph = G.full_graph(b)
+    if spec.get("subdict_drop"):
+        drop = set(spec["subdict_drop"])
+        sub = dict((k, v) for k, v in graph.items() if b.index.get(k) not in drop)
+        if sub:
+            return sub
+    return graph
+
+
 def single_pass(spec):
     """build + one dr.run; used by the parent and by the hash-seed children"""
     from insights.core import dr
     from vpmon import gen_graph as G
     b = G.build(spec["graph"])
     try:
-        graph = G.full_graph(b)
+        graph = the_graph(spec, b)
         with G.recording() as rec:
             br = dr.run(dict(graph), broker=mk_broker(spec, b))
         d, _ = digest([br], b)
@@ -373,7 +388,9 @@ def run_case(spec, ctx):
     b = G.build(g)
     rng = random.Random(spec["ext_seed"])
     try:
-        graph = G.full_graph(b)
+        graph = the_graph(spec, b)
+        if len(graph) < len(b.comps):
+            ctx.count("graphs_not_closed_under_dependencies")
         with G.recording() as rec:
             br0 = dr.run(dict((k, set(v)) for k, v in graph.items()), broker=mk_broker(spec, b))
         serialized = bool(spec.get("serialized_seeds"))
